@@ -2,5 +2,11 @@
 import PyProb.Model.Base
 import PyProb.Model.Hashes
 import PyProb.Model.Bitarray
+import PyProb.Model.Sizing
+import PyProb.Model.Bloom
+import PyProb.Model.Expanding
+import PyProb.Model.CMS
+import PyProb.Model.Cuckoo
+import PyProb.Model.QF
 import PyProb.Properties.C18
 import PyProb.Properties.C20
